@@ -64,7 +64,7 @@ type ArcDyn = Arc<dyn ErasedCtxt + Send + Sync>;
 // property values
 // ---------------------------------------------------------------------------
 
-#[derive(Clone, Debug)]
+#[derive(Clone, Debug, Hash)]
 enum Val {
     I(i64),
     S(String),
@@ -458,7 +458,7 @@ impl<'a> Env<'a> {
 // programs
 // ---------------------------------------------------------------------------
 
-#[derive(Debug)]
+#[derive(Debug, Hash)]
 enum Op {
     Create { var: usize, inst: usize, h: H, kind: FK, props: OwnProps },
     Guard { var: usize, body: Vec<Op> },
@@ -473,21 +473,21 @@ enum Op {
     Emit { inst: usize },
 }
 
-#[derive(Debug)]
+#[derive(Debug, Hash)]
 struct TaskDef {
     var: usize,
     moved: Vec<usize>,
     body: Vec<AItem>,
 }
 
-#[derive(Debug)]
+#[derive(Debug, Hash)]
 enum AItem {
     Sync(Vec<Op>),
     Yield,
     Nested { var: usize, body: Vec<AItem> },
 }
 
-#[derive(Debug)]
+#[derive(Debug, Hash)]
 struct Program {
     insts: Vec<(bool, u8)>, // (shared, slot kind)
     n_vars: usize,
@@ -898,12 +898,13 @@ struct Cx {
     seed: u64,
     index: u64,
     max_ops: u64,
+    check_every: usize,
     done: Mutex<Vec<Ts>>,
 }
 
 impl Cx {
     fn case(&self) -> Json {
-        json!({"seed": self.seed, "index": self.index, "max_ops": self.max_ops})
+        json!({"seed": self.seed, "index": self.index, "max_ops": self.max_ops, "check_every": self.check_every})
     }
 }
 
@@ -945,6 +946,11 @@ fn check(cx: &Cx, site: &'static str) {
         c.set(c.get().wrapping_add(1));
         c.get()
     });
+    // `--check-every K` (Miri lanes only, where one read costs ~30 ms): look at every K-th
+    // program point of each thread so that more programs fit into the lane
+    if cx.check_every > 1 && rot % cx.check_every != 0 {
+        return;
+    }
     for (i, inst) in cx.insts.iter().enumerate() {
         let h = HANDLES[(rot + i * 5) % HANDLES.len()];
         let got = inst.read(h);
@@ -1442,12 +1448,11 @@ fn run_executor<'a>(cx: &'a Cx, mut tasks: Vec<Task<'a>>, mut g: Rng, cancel_pct
 // one program = one case
 // ---------------------------------------------------------------------------
 
-fn run_program(r: &mut Report, seed: u64, index: u64, max_ops: u64, verbose: bool) {
+fn run_program(r: &mut Report, seed: u64, index: u64, max_ops: u64, check_every: usize, verbose: bool) {
     let mut g = Rng::stream(seed, &[3, 1, index]);
     let prog = generate(&mut g, max_ops);
-    let text = format!("{:?}", prog);
     if verbose {
-        eprintln!("{}", text);
+        eprintln!("{:?}", prog);
     }
     let cx = Cx {
         insts: prog.insts.iter().map(|(shared, k)| Inst::new(*shared, *k)).collect(),
@@ -1455,6 +1460,7 @@ fn run_program(r: &mut Report, seed: u64, index: u64, max_ops: u64, verbose: boo
         seed,
         index,
         max_ops,
+        check_every,
         done: Mutex::new(Vec::new()),
     };
     let res = catch(|| {
@@ -1467,8 +1473,14 @@ fn run_program(r: &mut Report, seed: u64, index: u64, max_ops: u64, verbose: boo
     });
     r.eval();
     let mut case = cx.case();
-    let shown: String = text.chars().take(6000).collect();
-    case["program"] = json!(shown);
+    let done = std::mem::take(&mut *cx.done.lock().unwrap());
+    let corrupt = CORRUPT_CANARIES.swap(0, Ordering::Relaxed);
+    let failed = res.is_err() || corrupt > 0 || done.iter().any(|t| !t.viols.is_empty()) || cx.insts.iter().any(|i| i.live.load(Ordering::Relaxed) != 0);
+    if failed {
+        // the program text is only rendered when it is needed as a witness (it is slow under Miri)
+        let shown: String = format!("{:?}", prog).chars().take(6000).collect();
+        case["program"] = json!(shown);
+    }
     if let Err(m) = res {
         r.violation(
             "C03:unexpected-panic:main",
@@ -1476,7 +1488,6 @@ fn run_program(r: &mut Report, seed: u64, index: u64, max_ops: u64, verbose: boo
             case.clone(),
         );
     }
-    let corrupt = CORRUPT_CANARIES.swap(0, Ordering::Relaxed);
     if corrupt > 0 {
         r.violation(
             "C03:erased-frame:canary-corrupted",
@@ -1494,7 +1505,6 @@ fn run_program(r: &mut Report, seed: u64, index: u64, max_ops: u64, verbose: boo
             );
         }
     }
-    let done = std::mem::take(&mut *cx.done.lock().unwrap());
     let mut depth = 0;
     let mut nonlexical = 0;
     for t in done {
@@ -1514,9 +1524,9 @@ fn run_program(r: &mut Report, seed: u64, index: u64, max_ops: u64, verbose: boo
     r.observe("programs", 1);
     r.observe(&format!("programs-reaching-depth:{}", depth.min(9)), 1);
     if depth >= 2 && nonlexical > 0 {
-        r.nontrivial(&text);
-        if r.wants_sample() {
-            let short: String = text.chars().take(1500).collect();
+        r.nontrivial(&prog);
+        if r.wants_sample() && !cfg!(miri) {
+            let short: String = format!("{:?}", prog).chars().take(1500).collect();
             r.sample(|| json!({"seed": seed, "index": index, "max_depth_reached": depth, "nonlexical_exits": nonlexical, "program": short}));
         }
     }
@@ -1556,10 +1566,12 @@ fn main() {
         "C03",
         &args,
         "one evaluation = one generated program run against the real frame API with the stack-of-maps model compared at every program point; \
-         non-trivial = distinct programs (by full text) that reached frame nesting depth >= 2 and took at least one non-lexical exit \
+         non-trivial = distinct programs (by structural hash of the whole program) that reached frame nesting depth >= 2 and took at least one non-lexical exit \
          (future suspended between polls, frame or future moved to another thread, or panic unwinding through frames)",
     );
     let max_ops = args.get_u64("max-ops", 60);
+    let check_every = args.get_u64("check-every", 1).max(1) as usize;
+    r.set("check_every_kth_program_point", json!(check_every));
     prelude(&mut r);
 
     r.set(
@@ -1580,14 +1592,15 @@ fn main() {
         let index = case.get("index").and_then(|v| v.as_u64()).unwrap_or(0);
         let mo = case.get("max_ops").and_then(|v| v.as_u64()).unwrap_or(max_ops);
         for _ in 0..3 {
-            run_program(&mut r, seed, index, mo, false);
+            // always replay with every program point checked
+            run_program(&mut r, seed, index, mo, 1, false);
         }
         std::process::exit(r.finish());
     }
 
     let n = args.get_u64("programs", args.n(5_000, 300_000));
     let seed = args.seed;
-    par_cases(&mut r, &args, n, |i, r| run_program(r, seed, i, max_ops, false));
+    par_cases(&mut r, &args, n, |i, r| run_program(r, seed, i, max_ops, check_every, false));
 
     let code = r.finish();
     if code != 0 {
